@@ -13,6 +13,7 @@ import common
 import cfg
 
 OTHER = "<other>"
+NONASCII = "<non-ascii>"
 
 
 class Unsupported(Exception):
@@ -153,6 +154,10 @@ class Scanner:
             env[l] = eq if rv["binop"] == "Eq" else (not eq)
         elif "unop" in rv and rv["unop"] == "Not":
             env[l] = not self._operand(rv["op"], env)
+        elif "ref" in rv and not rv["ref"]["proj"]:
+            env[l] = ("ref", rv["ref"]["local"])
+        elif "ref" in rv and [e["k"] for e in rv["ref"]["proj"]] == ["deref"] and isinstance(env.get(rv["ref"]["local"]), tuple) and env[rv["ref"]["local"]][0] == "ref":
+            env[l] = env[rv["ref"]["local"]]
         elif "ref" in rv or "rawptr" in rv or "discriminant" in rv or "cast" in rv or "aggregate" in rv:
             env.pop(l, None)
         elif ty in ("bool", "char"):
@@ -205,6 +210,14 @@ class Scanner:
                     if not (isinstance(v, tuple) and v[0] == "str"):
                         raise Unsupported("push_str of a non-constant")
                     out.extend(list(v[1]))
+                elif nm == "is_ascii" and (sty == "char" or (t.get("resolved") or "").endswith("char>::is_ascii") or "char" in (t.get("resolved") or "")):
+                    v = self._operand(t["args"][0], env)
+                    if isinstance(v, tuple) and v[0] == "ref":
+                        v = env.get(v[1])
+                    d = t["dest"]
+                    if d["proj"]:
+                        raise Unsupported("is_ascii result stored through a projection")
+                    env[d["local"]] = (v != NONASCII)
                 else:
                     raise Unsupported("call to %s inside the scanner loop" % (t.get("resolved") or t.get("callee")))
                 if t.get("target") is None:
@@ -275,3 +288,21 @@ def compare_with_reference(fn):
 
 def _fmt(out, a):
     return repr("".join((("x" if a == OTHER else a) if o == "ITEM" else (o if isinstance(o, str) else "?")) for o in out))
+
+
+def ascii_identity(fn):
+    """(ok, message): the function copies every ASCII character unchanged and keeps no state across ASCII characters
+    (the per-character escaper contract); non-ASCII input is not interpreted here."""
+    try:
+        sc = Scanner(fn)
+        alphabet = sorted(sc.K | {'"', "\\", ",", ":"}) + [OTHER]
+        st = sc.init
+        for a in alphabet:
+            if isinstance(a, str) and a not in (OTHER,) and len(a) == 1 and ord(a) > 127:
+                continue
+            st2, out = sc.step(st, a)
+            if out != ("ITEM",) or st2 != st:
+                return (False, "for the ASCII character %r it emits %s / changes state" % (a, _fmt(out, a)))
+        return (True, "copies each ASCII character unchanged (alphabet %s), stateless" % [("other" if c == OTHER else c) for c in alphabet])
+    except Unsupported as e:
+        return (None, "not analysable: %s" % e)
